@@ -69,6 +69,15 @@ THEOREMS = [
     # session 4: the conditional mark of parsermark over the regenerated table of writes to ->error / ->flag
     "JanetModel.Props.C01.parser_sites_keep_inv",
     "JanetModel.Props.C01.parser_error_marked_iff_heap",
+    # session 4b: which C functions can be interrupted by a collection (call-graph certificate over the regenerated LLVM-IR
+    # call graph), the builder family and every _begin .. _end window; the collecting functions' windows stay listed (_partial)
+    "JanetModel.Props.C01.callgraph_maycollect_closed",
+    "JanetModel.Props.C01.nocollect_sound",
+    "JanetModel.Props.C01.alloc_cannot_collect",
+    "JanetModel.Props.C01.builder_family_cannot_collect",
+    "JanetModel.Props.C01.family_in_closure",
+    "JanetModel.Props.C01.begin_end_windows_covered",
+    "JanetModel.Props.C01.c_local_windows_partial",
 ]
 H = os.path.join(VERIF, "harness/C01")
 SOURCES = [os.path.join(H, x) for x in ("gch.c", "w_ev.c", "w_net.c", "w_os.c", "w_filewatch.c", "w_ffi.c", "w_symcache.c")]
@@ -344,6 +353,18 @@ def run(ctx, only_replay=None):
         ctx.broken.append(broken[-1])
     except ImportError:
         pass
+    # the whole-program call graph (LLVM IR of the amalgamation) and the windows in which C locals hold unfinished objects
+    try:
+        from tools.gen import gcroot as gen_gcroot
+        text, rw_info = gen_gcroot.render(ctx.build)
+        ctx.gen("GCRoot.lean", text)
+        gen_info["rootwin"] = rw_info
+        ctx.say("call graph: %d functions, %d edges, %d can reach janet_collect; builder windows: %d calls in %d functions; family closure %d; uncertified pairs in %d collecting functions" % (
+            rw_info["functions"], rw_info["call_edges"], rw_info["may_collect"], rw_info["begin_end_rows"], rw_info["begin_end_functions"],
+            rw_info["family_closure"], len(rw_info["uncertified_window_pairs"])))
+    except ExtractError as e:
+        broken.append("translator tools/gen/gcroot.py: %s" % e)
+        ctx.broken.append(broken[-1])
     # ---------------------------------------------------------------- (B,C) proofs
     if os.path.exists(os.path.join(VERIF, "lean/JanetModel/GC/Model.lean")):
         broken += ctx.obligations("JanetModel.Props.C01", THEOREMS)
@@ -644,7 +665,8 @@ def _run(ctx, quick, broken, exes, driver, tmp, gen_info, only_replay):
         "scenarios": len(scen), "generated_programs": n_small + n_large, "suites": len(suites), "translator": gen_info,
     }
     return ctx.finish("proof", cov, assumptions=[
-        "rooting discipline of C code (values held only in C locals across a safepoint) is TESTED by the schedule comparison under ASan, not proved",
+        "rooting discipline of C code: PROVED for every function that cannot reach janet_collect in the regenerated whole-program call graph (1391 of 1501 functions on the pinned tree, incl. every _begin .. _end builder window, marshal / unmarshal, PEG compilation, the parser); for the functions that can be interrupted by a collection (run_vm, peg_rule, the compiler's special forms, ...) it is TESTED by the schedule comparison under ASan, not proved - their allocation -> collection site pairs are listed in translator.rootwin.uncertified_window_pairs",
+        "the call graph over-approximates indirect calls by LLVM function type over address-taken functions (no calls through pointers cast to another function type) and treats functions outside the library (libc) as unable to call back except through a function address the caller mentions",
         "the Lean model abstracts a block to (kind, ordered edge list with value/pointer/weak class); the harness's independent enumerator is the tie",
         "collections happen only at interpreter safepoints / explicit janet_collect calls; the forced-schedule hook covers maybe_collect in vm.c",
         "worker threads (ev/thread) get the same forced schedule (own PRNG stream per thread, numbered in start order) and the same graph oracle, serialised by a mutex; no model dumps are taken there",
